@@ -223,7 +223,7 @@ def gen_program(rng, tier="quick", allow_hazard=False, nsteps=None, init_rows=No
         return False
 
     kinds = ["sel", "sel", "sel", "sel", "alias", "ufs", "neg", "ufcol", "ufra", "concat", "sort", "cumsum", "diff", "where", "zeros", "unique",
-             "assign", "assign", "assign", "maskassign", "obs", "obs", "obs"]
+             "assign", "assign", "assign", "maskassign", "rowwrite", "ravelwrite", "obs", "obs", "obs"]
     if isf:
         kinds = [k for k in kinds if k not in ("sort", "cumsum", "unique")] + ["ufcol", "ufcol", "ufcol"]
     guard = 0
@@ -316,6 +316,27 @@ def gen_program(rng, tier="quick", allow_hazard=False, nsteps=None, init_rows=No
             else:
                 env[v] = OBS[kind][1](U, None)
                 steps.append({"op": kind, "v": v, "u": u})
+        elif kind in ("rowwrite", "ravelwrite"):
+            # writes through numpy views handed out by the array: x[i] is a view of x's row, x.ravel() is x's buffer (as in numpy)
+            cand = [i for i in range(n) if U[i]]
+            if not cand:
+                continue
+            tu = track[u]
+            deps = [w for w in env if w != u and track[w].own != tu.own and track[w].maybe_lazy and tu.own in track[w].bufs]
+            if deps and not allow_hazard:
+                for w in deps:
+                    add_obs(w, "tolist")
+            elif deps:
+                hazard = True
+            materialise(u)
+            i = rng.choice(cand)
+            j = rng.randrange(len(U[i]))
+            val = num(100, 999)
+            U[i][j] = val
+            if kind == "rowwrite":
+                steps.append({"op": "rowwrite", "u": u, "i": i if rng.random() < 0.5 else i - n, "j": j, "val": val})
+            else:
+                steps.append({"op": "ravelwrite", "u": u, "k": sum(len(r) for r in U[:i]) + j, "val": val})
         elif kind in ("assign", "maskassign"):
             # hazard control (DESIGN 5, C10): a write into a buffer that a (maybe) lazy selection still shares
             tu = track[u]
@@ -435,6 +456,15 @@ def run_model(steps):
                 for j, x in enumerate(r):
                     if x > st["c"]:
                         r[j] = st["val"]
+        elif op == "rowwrite":
+            env[st["u"]][st["i"]][st["j"]] = st["val"]
+        elif op == "ravelwrite":
+            k = st["k"]
+            for r in env[st["u"]]:
+                if k < len(r):
+                    r[k] = st["val"]
+                    break
+                k -= len(r)
         elif op == "assign":
             U = env[st["u"]]
             k_, cells = model.select_cells([len(r) for r in U], st["rs"], st["cs"], st["has_cs"])
@@ -522,6 +552,17 @@ def run_lib(steps, mode="L", read_plan=None, purity=False, trace=None):
             new = np.zeros_like(env[st["u"]])
         elif op == "unique":
             new = np.unique(env[st["u"]], axis=-1)
+        elif op in ("rowwrite", "ravelwrite"):
+            tgt = env[st["u"]]
+            if mode == "L":
+                g = groups.get(st["u"])
+                for w, x in env.items():
+                    if groups.get(w) != g and is_lazy(x):
+                        hazard_seen = True
+            if op == "rowwrite":
+                tgt[st["i"]][st["j"]] = st["val"]
+            else:
+                tgt.ravel()[st["k"]] = st["val"]
         elif op in ("assign", "maskassign"):
             tgt = env[st["u"]]
             if mode == "L":
